@@ -115,6 +115,12 @@ CHECKS = {
         text="Kernels are synthesised for every access mode x function space of one or two updated arguments (40 metadata variants quick, 264 thorough), the real LFRic generator builds the invoke (distributed memory on and off), and ten transformation sequences (twenty in thorough, with loop fusion of two kernel calls first) of Dynamo0p3ColourTrans, DynamoOMPParallelLoopTrans, Dynamo0p3OMPLoopTrans+OMPParallelTrans, ACCLoopTrans+ACCParallelTrans+ACCEnterDataTrans are applied, targeting the cell loop, the colours loop and regions around either. Whatever is accepted and generated is executed by fsym with the LFRic stub contract; the kernel call's dofmap argument gives the cell term of each iteration. z3 decides, for all meshes satisfying the axioms, that two different iterations of a parallel loop cannot write the same element of an INC/READINC (or discontinuous WRITE/READWRITE) field; separately a colours loop executed inside an open parallel region without worksharing is reported. Witnesses are replayed by an independent structural reading of the emitted text.",
         note="Unbounded in mesh size (loops summarised, dofmaps uninterpreted). Continuity is taken from the function-space name; GH_WRITE on continuous spaces is outside the property. Sequences are bounded to <= 4 transformations from the listed set. Trusted: fparser2, z3, fsym, the LFRic stub contract, the mesh axioms.",
         ref="5/C23"),
+    "C24": dict(
+        level="translation_validation", engine="fsym",
+        technique="two-sided symbolic execution: the generated algorithm layer and generated PSy module run together (rewritten calls enter the PSy routines) against the original invokes interpreted from their text; user kernels are shared uninterpreted functions of all their arguments, built-ins the documented formulas; z3 decides equality of every field and scalar of the algorithm routine for all inputs and kernel functions",
+        text="psyclone.generator.generate is run on synthesised LFRic algorithm modules (18 hand-written and 40 (quick) / 800 (thorough) pseudo-randomly drawn files, distributed memory on and off) whose 1-4 invokes mix three user kernels and 13 built-ins with repeated, case-varied, spaced, array-element (literal and variable index), structure-component (two levels), literal and named-invoke arguments and case-varied `call invoke` spellings. The generated algorithm text and PSy text are concatenated and executed by fsym from the algorithm routine, so the actual-to-dummy association of every generated call is exercised; the original file is executed by the same front end with `invoke` interpreted directly on the objects its actual arguments denote. z3 decides that no field's data and no scalar differ at the end. Static by-checks on the generated text: distinct dummy names, equal actual/dummy counts, no `invoke` left behind, NoInvokesError on a file with invokes. Witnesses are replayed by a concrete fsym run of the generated code against a plain-Python evaluation of the invokes.",
+        note="Bounds: <= 2 DoFs, one cell column, all fields on one DoF count; <= 4 invokes x <= 3 calls. Operators, stencils, quadrature, field vectors and inter-grid kernels are outside the family. The random files are a fixed sample (seeds 1, 2), each decided for all inputs. Trusted: fparser2, z3, fsym, the LFRic stub contract, the 13 built-in formulas (checked against the generated loops by C20).",
+        ref="5/C24"),
     "C25": dict(
         level="translation_validation", engine="fsym",
         technique="SMT over loop-nest summaries of the generated GOcean PSy layer: loop variables are Skolem constants bounded by the symbolically evaluated DO bounds; z3 decides 'visited(i,j) <=> configured region' and invariance under transformations for ALL grid sizes and all points (quantified queries)",
